@@ -111,7 +111,7 @@ pub fn uplink_dr_strategy(reg: Reg) -> impl Strategy<Value = u8> {
 
 pub fn step_strategy(reg: Reg, class_c: bool, allow_join: bool) -> impl Strategy<Value = Step> {
     let mut v: Vec<(u32, BoxedStrategy<Step>)> = vec![
-        (10, (prop_oneof![8 => 1u8..=223, 1 => Just(0u8)], 0u8..50, any::<bool>(), plan_strategy(reg, class_c)).prop_map(|(port, len, confirmed, rx)| Step::Send { port, len, confirmed, rx }).boxed()),
+        (10, (prop_oneof![8 => 1u8..=223, 1 => Just(0u8), 1 => 224u8..=255], prop_oneof![8 => 0u8..50, 1 => 50u8..=242, 1 => Just(242u8)], any::<bool>(), plan_strategy(reg, class_c)).prop_map(|(port, len, confirmed, rx)| Step::Send { port, len, confirmed, rx }).boxed()),
         (1, uplink_dr_strategy(reg).prop_map(Step::SetDr).boxed()),
         (1, any::<bool>().prop_map(Step::SetAdr).boxed()),
         (1, prop_oneof![3 => Just(false), 1 => Just(true)].prop_map(Step::SetDrain).boxed()),
